@@ -74,7 +74,14 @@ func UnifySpellings(w *World) {
 		}
 	})
 	w.eachRuleSel(func(p **Sel) {
-		*p = cloneSel(best[SemKey(*p)])
+		k := SemKey(*p)
+		// a selector that only names a namespace is spelled the way the tool spells the implicit (nil) namespaceSelector of a
+		// policy in that namespace: matchLabels on the name label
+		if strings.HasPrefix(k, MetaName+"==") && !strings.Contains(k, ";") {
+			*p = &Sel{ML: map[string]string{MetaName: strings.TrimPrefix(k, MetaName+"==")}}
+			return
+		}
+		*p = cloneSel(best[k])
 	})
 }
 
